@@ -34,21 +34,28 @@ func propConfigs() map[string]*PropConfig {
 		Redirect: map[string]string{"github.com/cosmos72/gomacro/fast.sortCmdList": "vhModelSortCmdList"},
 		StrBytes: 16,
 		Explain:  "patterns A/C: the real binarySearch, prefixSearch, removeCmd, Cmds.Add/Del/Lookup run on symbolic command names (SMT strings) and are compared with a linear-scan reference lookup"})
-	add(&PropConfig{ID: "C14", Prefix: "VH_C14_", Sets: []HarnessSet{hfiles("fast", fastLib, "fast/c14.go")},
+	add(&PropConfig{ID: "C14", Prefix: "VH_C14_", Sets: []HarnessSet{hfiles("fast", fastLib, "fast/c14.go", "fast/c14_address_gen.go")},
 		Explain: "pattern C: the real BindClass.MakeDescriptor/Index/Class, Comp.NewBind, CompBinds.NewBind and Interp.prepareEnv are executed from an arbitrary state satisfying the slot invariant; post-conditions: slot allocation, frozen capacity honoured, existing slots preserved, no reallocation after an address escaped"})
-	add(&PropConfig{ID: "C19", Prefix: "VH_C19_", Sets: []HarnessSet{hfiles("fast", fastLib, "fast/c19.go"), hfiles("fast/debug", "debug/c19_cmd.go")},
+	add(&PropConfig{ID: "C19", Prefix: "VH_C19_", Sets: []HarnessSet{hfiles("fast", fastLib, "fast/c19.go", "fast/c06.go"), hfiles("fast/debug", "debug/c19_cmd.go")},
+		Redirect: map[string]string{"github.com/cosmos72/gomacro/gls.GoID": "vhModelGoID"},
 		Explain: "patterns A/C: the real singleStep, Interp.debug, Run.applyDebugOp (package fast) and Debugger.cmdStep/cmdNext/cmdFinish/cmdContinue, Cmds.Lookup (package fast/debug) are executed with symbolic call depths; the debugger is a counting stub; assertions state the stop rule of each command"})
-	add(&PropConfig{ID: "C13", Prefix: "VH_C13_", Sets: []HarnessSet{hfiles("fast", fastLib, "fast/c19.go", "fast/c13.go")},
+	add(&PropConfig{ID: "C13", Prefix: "VH_C13_", Sets: []HarnessSet{hfiles("fast", fastLib, "fast/c19.go", "fast/c06.go", "fast/c13.go")},
+		Redirect: map[string]string{"github.com/cosmos72/gomacro/gls.GoID": "vhModelGoID"},
 		Explain: "the real Code.Exec / exec / execWithFlags / reExecWithFlags executor loops, spinInterrupt, Run.interrupt, Run.applyAsyncSignal, restore and base.Signals.IsEmpty are executed symbolically on compiled-code lists made of harness statements; the statement call at which the asynchronous interrupt arrives is enumerated over every position of the unrolled loops"})
-	add(&PropConfig{ID: "C07", Prefix: "VH_C07_", Sets: []HarnessSet{hfiles("fast", fastLib, "fast/c19.go", "fast/c13.go", "fast/c07.go")},
+	add(&PropConfig{ID: "C07", Prefix: "VH_C07_", Sets: []HarnessSet{hfiles("fast", fastLib, "fast/c19.go", "fast/c06.go", "fast/c13.go", "fast/c07.go")},
+		Redirect: map[string]string{"github.com/cosmos72/gomacro/gls.GoID": "vhModelGoID"},
 		Explain: "the real callRecover, pushDefer, popDefer, maybeRepanic and the defer machinery of reExecWithFlags (rundefer) are executed symbolically on function bodies made of harness statements; which calls panic / recover is symbolic"})
-	add(&PropConfig{ID: "C12", Prefix: "VH_C12_", Sets: []HarnessSet{hfiles("fast", fastLib, "fast/c19.go", "fast/c13.go", "fast/c07.go")},
+	add(&PropConfig{ID: "C12", Prefix: "VH_C12_", Sets: []HarnessSet{hfiles("fast", fastLib, "fast/c19.go", "fast/c06.go", "fast/c13.go", "fast/c07.go")},
+		Redirect: map[string]string{"github.com/cosmos72/gomacro/gls.GoID": "vhModelGoID", "(*github.com/cosmos72/gomacro/fast.Interp).PrepareEnv": "vhModelPrepareEnv"},
 		Explain: "the real exec / reExecWithFlags / restore / pushDefer / popDefer are executed on programs aborted by a panic at every statement position (and inside a deferred call); afterwards the bookkeeping is compared with the top-level values and probe evaluations (defer + panic + recover) are run on the same Run"})
 	fp := "(*github.com/cosmos72/gomacro/fast."
 	add(&PropConfig{ID: "C27", Prefix: "VH_C27_", StrBytes: 16, Sets: []HarnessSet{hfiles("fast", fastLib, "fast/c27.go"), hfiles("go/etoken", "etoken/c27_fileset.go")},
 		Redirect: map[string]string{"(*github.com/cosmos72/gomacro/base.Globals).ReadMultiline": "vhModelReadMultiline", fp + "Comp).Parse": "vhModelParse",
 			fp + "Interp).Cmd": "vhModelCmd", fp + "Interp).RunExpr": "vhModelRunExpr", "(*github.com/cosmos72/gomacro/base.Globals).Print": "vhModelPrint"},
 		Explain: "the real Interp.ReadParseEvalPrint / Read / ParseEvalPrint / Parse / afterEval and Stringer.IncLine run on chunks whose comment prefix and code are symbolic byte strings; the reader, the parser entry (which records Globals.Line and the text it is given), command dispatch, execution and printing are replaced by models"})
+	add(&PropConfig{ID: "C06", Prefix: "VH_C06_", Sets: []HarnessSet{hfiles("fast", fastLib, "fast/c19.go", "fast/c06.go", "fast/c06_address_gen.go")},
+		Redirect: map[string]string{"github.com/cosmos72/gomacro/gls.GoID": "vhModelGoID"},
+		Explain: "pattern C: the real newEnv, NewEnv, newEnv4Func, freeEnv, FreeEnv, freeEnv4Func, MarkUsedByClosure and Var.Address are executed from arbitrary valid pool states; the goroutine identity (assembly) is a model returning a harness variable"})
 	xrp := "(*github.com/cosmos72/gomacro/xreflect.xtype)."
 	add(&PropConfig{ID: "C34", Prefix: "VH_C34_", Sets: []HarnessSet{hfiles("xreflect", "xreflect/lib_xreflect.go", "xreflect/c34_gen.go")},
 		Redirect: map[string]string{xrp + "NumMethod": "vhModelNumMethod", xrp + "Method": "vhModelMethod", xrp + "GetMethods": "vhModelGetMethods"},
